@@ -39,12 +39,32 @@ func modelInts(file string, terms []string, ms int) ([]int, bool) {
 	f := file + ".mv.smt2"
 	os.WriteFile(f, []byte(b.String()), 0o644)
 	out, _ := runSolverNamed("z3-new", f, ms)
-	lines := strings.SplitN(out, "\n", 2)
-	if len(lines) < 2 || firstWord(lines[0]) != "sat" {
+	rest, ok := afterSat(out)
+	if !ok {
 		return nil, false
 	}
-	vals := parseValueList(lines[1], len(terms))
+	vals := parseValueList(rest, len(terms))
 	return vals, vals != nil
+}
+
+// afterSat: the solver output that follows the first answer line, if that answer is sat
+// (warnings before it are skipped).
+func afterSat(out string) (string, bool) {
+	rest := out
+	for rest != "" {
+		lines := strings.SplitN(rest, "\n", 2)
+		if w := firstWord(lines[0]); w != "" {
+			if w == "sat" && len(lines) == 2 {
+				return lines[1], true
+			}
+			return "", false
+		}
+		if len(lines) < 2 {
+			break
+		}
+		rest = lines[1]
+	}
+	return "", false
 }
 
 func runSolverNamed(name, file string, ms int) (string, float64) {
